@@ -763,7 +763,8 @@ package ucfg
 //@ ensures r == ctxof(self)
 
 //@ func (cfgSub).cpy :: c, ctx -> r
-//@ props C10 C15
+//@ props C10 C15 C02
+//@ tagged-only C02
 //@ requires c.c != nil && c.c.fields != nil
 //@ requires forall k string :: has(c.c.fields.d, k) ==> c.c.fields.d[k] != nil
 //@ requires forall j int :: 0 <= j && j < len(c.c.fields.a) ==> c.c.fields.a[j] != nil
@@ -774,11 +775,11 @@ package ucfg
 //@ ensures [dictdom] forall k string :: has(r.(cfgSub).c.fields.d, k) == has(c.c.fields.d, k)
 //@ ensures [dictfresh] r.(cfgSub).c.fields.d == nil || fresh(r.(cfgSub).c.fields.d)
 //@ ensures [dictcopies] forall k string :: has(c.c.fields.d, k) ==> copyOf(r.(cfgSub).c.fields.d[k], c.c.fields.d[k]) && fresh(r.(cfgSub).c.fields.d[k])
-//@ ensures [dictctx] forall k string :: has(c.c.fields.d, k) ==> cctx(r.(cfgSub).c.fields.d[k]).parent == r && cctx(r.(cfgSub).c.fields.d[k]).field == ctxof(c.c.fields.d[k]).field
+//@ ensures [dictctx @C10,C15,C02] forall k string :: has(c.c.fields.d, k) ==> cctx(r.(cfgSub).c.fields.d[k]).parent == r && cctx(r.(cfgSub).c.fields.d[k]).field == ctxof(c.c.fields.d[k]).field
 //@ ensures [arrlen] len(r.(cfgSub).c.fields.a) == len(c.c.fields.a) && ((r.(cfgSub).c.fields.a == nil) == (c.c.fields.a == nil))
 //@ ensures [arrfresh] c.c.fields.a != nil ==> fresh(r.(cfgSub).c.fields.a)
 //@ ensures [arrcopies] forall j int :: 0 <= j && j < len(c.c.fields.a) ==> copyOf(r.(cfgSub).c.fields.a[j], c.c.fields.a[j]) && fresh(r.(cfgSub).c.fields.a[j])
-//@ ensures [arrctx] forall j int :: 0 <= j && j < len(c.c.fields.a) ==> cctx(r.(cfgSub).c.fields.a[j]).parent == r && cctx(r.(cfgSub).c.fields.a[j]).field == ctxof(c.c.fields.a[j]).field
+//@ ensures [arrctx @C10,C15,C02] forall j int :: 0 <= j && j < len(c.c.fields.a) ==> cctx(r.(cfgSub).c.fields.a[j]).parent == r && cctx(r.(cfgSub).c.fields.a[j]).field == ctxof(c.c.fields.a[j]).field
 //@ loop 1 invariant newC.c != nil && fresh(newC.c) && newC.c.ctx == ctx && newC.c.metadata == c.c.metadata && fresh(fields) && fields != newC.c
 //@ loop 1 invariant fields.a == nil && (fields.d == nil || fresh(fields.d))
 //@ loop 1 invariant forall k string :: has(fields.d, k) == visited(k)
